@@ -42,9 +42,11 @@ def model_checks(ck, tier):
         r = common.tlc("ScanImpl", cfg, timeout=900)
         consts = "NC=3 MaxLen=2 B=2 MaxBad=1"
     ck.require_ok("ScanImpl", r); ck.add_tlc("ScanImpl (validate_checksums / zck_validate_data_checksum; fixed)", r, consts)
-    for v, inv in (("stale", "ExactClassification"), ("noreinit", "DataVerdict"), ("skipfirst", "ExactClassification")):
-        cfgv = common.cfg_variant("MC_ScanImpl_%s.cfg" % v, wd, MaxLen=2)
-        rv = common.tlc("ScanImpl", cfgv, timeout=600)
+    from concurrent.futures import ThreadPoolExecutor
+    vs = ("stale", "noreinit", "skipfirst")
+    with ThreadPoolExecutor(max_workers=3) as ex:
+        rvs = list(ex.map(lambda v: common.tlc("ScanImpl", common.cfg_variant("MC_ScanImpl_%s.cfg" % v, wd, MaxLen=2), workers=2, timeout=600), vs))
+    for v, rv in zip(vs, rvs):
         if rv.ok or "violated" not in (rv.violation or ""):
             raise Broken("ScanImpl variant %s: the documented counterexample was not found (%s)" % (v, rv.violation))
         ck.models.append({"model": "ScanImpl variant %s" % v, "counterexample": rv.violation})
@@ -58,9 +60,9 @@ def build_case(rnd, cache, lens, pattern, fl, n, bad):
     if key not in cache:
         total = sum(lens)
         if pattern == "same":
-            R = corpus.rand(rnd, CELL); cells = [R] * (total + 1)
+            R = rnd.randbytes(CELL); cells = [R] * (total + 1)
         else:
-            cells = [corpus.rand(rnd, CELL) for _ in range(total + 1)]
+            cells = [rnd.randbytes(CELL) for _ in range(total + 1)]
         chunks = []; p = 0
         for L in lens:
             chunks.append(b"".join(cells[p:p + L])); p += L
